@@ -345,3 +345,191 @@ fn c02_draw_iter_one_pixel_240x320() { c02_draw_iter_one_pixel::<240, 320>() }
 #[kani::proof]
 #[kani::unwind(10)]
 fn c02_draw_iter_one_pixel_max() { c02_draw_iter_one_pixel::<65535, 65535>() }
+
+// ------------------------------------------------------------------------------ C02 (batch-mode draw_iter, one pixel)
+/// Loop-free recording interface: counts commands and pixel bursts, keeps the parameters of the last CASET / RASET.
+pub struct TinyIface { pub ncmd: u32, pub caset: [u8; 4], pub raset: [u8; 4], pub bursts: u32, pub pixels: u32 }
+impl crate::interface::Interface for TinyIface {
+    type Word = u8;
+    type Error = MockError;
+    const KIND: crate::interface::InterfaceKind = crate::interface::InterfaceKind::Serial4Line;
+    fn send_command(&mut self, command: u8, args: &[u8]) -> Result<(), MockError> {
+        self.ncmd += 1;
+        if args.len() == 4 {
+            let a = [args[0], args[1], args[2], args[3]];
+            if command == 0x2A { self.caset = a; }
+            if command == 0x2B { self.raset = a; }
+        }
+        Ok(())
+    }
+    fn send_pixels<const N: usize>(&mut self, pixels: impl IntoIterator<Item = [u8; N]>) -> Result<(), MockError> {
+        self.bursts += 1;
+        let mut it = pixels.into_iter();
+        // the harness sends at most one pixel per burst
+        if it.next().is_some() { self.pixels += 1; }
+        if it.next().is_some() { self.pixels += 100; }
+        Ok(())
+    }
+    fn send_repeated_pixel<const N: usize>(&mut self, _pixel: [u8; N], count: u32) -> Result<(), MockError> {
+        self.bursts += 1;
+        self.pixels += count;
+        Ok(())
+    }
+}
+/// one pixel with arbitrary i32 coordinates through the BATCH-mode draw_iter of a 240 x 320 panel in its default
+/// configuration: out of bounds => nothing is sent; in bounds => exactly one 1x1 window at the pixel
+#[cfg(feature = "batch")]
+#[kani::proof]
+#[kani::unwind(3)]
+fn c02_batch_draw_iter_one_pixel() {
+    use embedded_graphics_core::draw_target::DrawTarget;
+    use embedded_graphics_core::geometry::Point;
+    use embedded_graphics_core::Pixel;
+    let clock = Clock::new();
+    let r = crate::Builder::new(FbModel::<240, 320>, TinyIface { ncmd: 0, caset: [0; 4], raset: [0; 4], bursts: 0, pixels: 0 })
+        .reset_pin(MockPin::new(&clock)).init(&mut MockDelay(&clock));
+    let mut d = match r { Ok(d) => d, Err(_) => { kani::assume(false); unreachable!() } };
+    d.di.ncmd = 0;
+    let (x, y): (i32, i32) = (kani::any(), kani::any());
+    let r = d.draw_iter(core::iter::once(Pixel(Point::new(x, y), any_color())));
+    kani::assert(r.is_ok(), "C02: draw_iter returned an error on a fault-free bus");
+    let inb = x >= 0 && y >= 0 && x < 240 && y < 320;
+    let which: u8 = kani::any();
+    if inb {
+        if which == 0 { kani::assert(d.di.ncmd == 3 && d.di.bursts == 1 && d.di.pixels == 1, "C02: C03: C08: one window, one pixel"); }
+        if which == 1 { let (c, r) = (d.di.caset, d.di.raset);
+            let (xh, xl, yh, yl) = ((x >> 8) as u8, x as u8, (y >> 8) as u8, y as u8);
+            kani::assert(c[0] == xh && c[1] == xl && c[2] == xh && c[3] == xl && r[0] == yh && r[1] == yl && r[2] == yh && r[3] == yl, "C02: C01: C08: 1x1 window at the pixel"); }
+    } else if which == 2 {
+        kani::assert(d.di.ncmd == 0 && d.di.bursts == 0, "C02: an out-of-bounds pixel was not discarded");
+    }
+    kani::cover!(inb);
+    kani::cover!(!inb && x >= 0 && y >= 0);
+}
+
+/// the same for every orientation of the 240 x 320 panel (bounds follow the rotation)
+#[cfg(feature = "batch")]
+#[kani::proof]
+#[kani::unwind(3)]
+fn c02_batch_draw_iter_one_pixel_any_orientation() {
+    use embedded_graphics_core::draw_target::DrawTarget;
+    use embedded_graphics_core::geometry::Point;
+    use embedded_graphics_core::Pixel;
+    let clock = Clock::new();
+    let o = any_orientation();
+    let r = crate::Builder::new(FbModel::<240, 320>, TinyIface { ncmd: 0, caset: [0; 4], raset: [0; 4], bursts: 0, pixels: 0 })
+        .reset_pin(MockPin::new(&clock)).orientation(o).init(&mut MockDelay(&clock));
+    let mut d = match r { Ok(d) => d, Err(_) => { kani::assume(false); unreachable!() } };
+    d.di.ncmd = 0;
+    let (lw, lh) = oracle_logical_size(o, 240, 320);
+    let (x, y): (i32, i32) = (kani::any(), kani::any());
+    let r = d.draw_iter(core::iter::once(Pixel(Point::new(x, y), any_color())));
+    kani::assert(r.is_ok(), "C02: draw_iter returned an error on a fault-free bus");
+    let inb = x >= 0 && y >= 0 && x < lw as i32 && y < lh as i32;
+    let which: u8 = kani::any();
+    if inb {
+        if which == 0 { kani::assert(d.di.ncmd == 3 && d.di.bursts == 1 && d.di.pixels == 1, "C02: C03: C08: one window, one pixel"); }
+        if which == 1 {
+            let (c, r) = (d.di.caset, d.di.raset);
+            let (xh, xl, yh, yl) = ((x >> 8) as u8, x as u8, (y >> 8) as u8, y as u8);
+            // full-size panel without offset: the window shift is zero in every orientation
+            kani::assert(c[0] == xh && c[1] == xl && c[2] == xh && c[3] == xl && r[0] == yh && r[1] == yl && r[2] == yh && r[3] == yl, "C02: C01: C08: 1x1 window at the pixel");
+        }
+    } else if which == 2 {
+        kani::assert(d.di.ncmd == 0 && d.di.bursts == 0, "C02: C03: an out-of-bounds pixel was not discarded");
+    }
+    kani::cover!(inb && x >= 240);
+    kani::cover!(!inb && x >= 0 && y >= 0);
+}
+
+// ------------------------------------------------------------------------------ C03 (batch-mode draw_iter, two pixels)
+#[derive(Clone, Copy)]
+pub struct Burst { pub sx: u16, pub sy: u16, pub ex: u16, pub ey: u16, pub n: u32, pub px: [[u8; 2]; 2] }
+/// Loop-free interface that keeps the first two bursts (window + up to two Rgb565 pixels each)
+pub struct Tiny2 { pub caset: [u8; 4], pub raset: [u8; 4], pub nb: u32, pub b: [Burst; 2], pub bad: bool, pub armed: u8 }
+impl Tiny2 {
+    pub fn new() -> Self {
+        Tiny2 { caset: [0; 4], raset: [0; 4], nb: 0, b: [Burst { sx: 0, sy: 0, ex: 0, ey: 0, n: 0, px: [[0; 2]; 2] }; 2], bad: false, armed: 0 }
+    }
+}
+impl crate::interface::Interface for Tiny2 {
+    type Word = u8;
+    type Error = MockError;
+    const KIND: crate::interface::InterfaceKind = crate::interface::InterfaceKind::Serial4Line;
+    fn send_command(&mut self, command: u8, args: &[u8]) -> Result<(), MockError> {
+        if command == 0x2A && args.len() == 4 { self.caset = [args[0], args[1], args[2], args[3]]; if self.armed != 0 { self.bad = true; } self.armed = 1; }
+        else if command == 0x2B && args.len() == 4 { self.raset = [args[0], args[1], args[2], args[3]]; if self.armed != 1 { self.bad = true; } self.armed = 2; }
+        else if command == 0x2C && args.len() == 0 { if self.armed != 2 { self.bad = true; } self.armed = 3; }
+        else { self.bad = true; }
+        Ok(())
+    }
+    fn send_pixels<const N: usize>(&mut self, pixels: impl IntoIterator<Item = [u8; N]>) -> Result<(), MockError> {
+        if self.armed != 3 || N != 2 { self.bad = true; }
+        self.armed = 0;
+        let mut it = pixels.into_iter();
+        let mut cur = Burst { sx: u16::from_be_bytes([self.caset[0], self.caset[1]]), ex: u16::from_be_bytes([self.caset[2], self.caset[3]]),
+                              sy: u16::from_be_bytes([self.raset[0], self.raset[1]]), ey: u16::from_be_bytes([self.raset[2], self.raset[3]]), n: 0, px: [[0; 2]; 2] };
+        if let Some(p) = it.next() { cur.px[0] = [p[0], p[1 % N]]; cur.n += 1; }
+        if let Some(p) = it.next() { cur.px[1] = [p[0], p[1 % N]]; cur.n += 1; }
+        if it.next().is_some() { self.bad = true; }
+        if self.nb < 2 { self.b[self.nb as usize] = cur; } else { self.bad = true; }
+        self.nb += 1;
+        Ok(())
+    }
+    fn send_repeated_pixel<const N: usize>(&mut self, _pixel: [u8; N], _count: u32) -> Result<(), MockError> { self.bad = true; Ok(()) }
+}
+/// BOUNDED stand-in (2 pixels, 240 x 320 panel, default configuration, batch mode): the bursts, read window by window in
+/// row-major order, are exactly the in-bounds pixels of the stream in stream order - which is what applying set_pixel
+/// one by one writes; out-of-bounds pixels are discarded; adjacent pixels share one window
+#[cfg(feature = "batch")]
+#[kani::proof]
+#[kani::unwind(4)]
+fn c03_batch_two_pixels() {
+    use embedded_graphics_core::draw_target::DrawTarget;
+    use embedded_graphics_core::geometry::Point;
+    use embedded_graphics_core::Pixel;
+    use embedded_graphics_core::pixelcolor::{raw::RawU16, Rgb565};
+    use embedded_graphics_core::prelude::RawData;
+    let clock = Clock::new();
+    let r = crate::Builder::new(FbModel::<240, 320>, Tiny2::new()).reset_pin(MockPin::new(&clock)).init(&mut MockDelay(&clock));
+    let mut d = match r { Ok(d) => d, Err(_) => { kani::assume(false); unreachable!() } };
+    d.di = Tiny2::new();
+    let p: [(i32, i32, u16); 2] = kani::any();
+    let mk = |q: (i32, i32, u16)| Pixel(Point::new(q.0, q.1), Rgb565::from(RawU16::new(q.2)));
+    let r = d.draw_iter([mk(p[0]), mk(p[1])]);
+    kani::assert(r.is_ok(), "C02: draw_iter returned an error on a fault-free bus");
+    let inb = |q: (i32, i32, u16)| q.0 >= 0 && q.1 >= 0 && q.0 < 240 && q.1 < 320;
+    // expected write sequence: the in-bounds pixels in stream order
+    let mut want: [(i32, i32, u16); 2] = [(0, 0, 0); 2];
+    let mut nw = 0usize;
+    if inb(p[0]) { want[nw] = p[0]; nw += 1; }
+    if inb(p[1]) { want[nw] = p[1]; nw += 1; }
+    // actual write sequence: bursts in order, each window read row-major
+    let mut got: [(i32, i32, u16); 2] = [(0, 0, 0); 2];
+    let mut ng = 0usize;
+    let mut framing_ok = !d.di.bad && d.di.nb <= 2;
+    let b0 = d.di.b[0];
+    let b1 = d.di.b[1];
+    if d.di.nb >= 1 {
+        let w = b0.ex as i32 - b0.sx as i32 + 1;
+        let h = b0.ey as i32 - b0.sy as i32 + 1;
+        if w < 1 || h < 1 || (b0.n as i32) > w * h || b0.n < 1 { framing_ok = false; } else {
+            got[0] = (b0.sx as i32, b0.sy as i32, u16::from_be_bytes(b0.px[0])); ng = 1;
+            if b0.n == 2 { got[1] = (b0.sx as i32 + 1 % w, b0.sy as i32 + 1 / w, u16::from_be_bytes(b0.px[1])); ng = 2; }
+        }
+    }
+    if d.di.nb == 2 && framing_ok {
+        let w = b1.ex as i32 - b1.sx as i32 + 1;
+        let h = b1.ey as i32 - b1.sy as i32 + 1;
+        if w < 1 || h < 1 || (b1.n as i32) > w * h || b1.n != 1 || ng != 1 { framing_ok = false; } else {
+            got[1] = (b1.sx as i32, b1.sy as i32, u16::from_be_bytes(b1.px[0])); ng = 2;
+        }
+    }
+    let which: u8 = kani::any();
+    if which == 0 { kani::assert(framing_ok, "C08: malformed window / burst framing"); }
+    if which == 1 && framing_ok { kani::assert(ng == nw && (nw < 1 || got[0] == want[0]) && (nw < 2 || got[1] == want[1]), "C03: C02: the bursts are not the in-bounds pixels in stream order"); }
+    if which == 2 && framing_ok && nw == 2 && want[1].1 == want[0].1 && want[1].0 == want[0].0 + 1 { kani::assert(d.di.nb == 1, "C20: two adjacent pixels of a row must share one window"); }
+    kani::cover!(nw == 2 && d.di.nb == 1 && b0.ey > b0.sy);
+    kani::cover!(nw == 2 && d.di.nb == 2);
+    kani::cover!(nw == 1);
+}
